@@ -1,6 +1,6 @@
 /* C02: decryption inverts encryption, rejects every forgery, wipes plaintext on failure.
  * usage: c02 <family 0..4> <alg 0..2> <pattern> <tier 0|1>
- * family: 0 one-shot, 1 incremental, 2 masked, 3 siv, 4 isap */
+ * family: 0 one-shot, 1 incremental, 2 masked, 3 siv, 4 isap, 5..8 the C++ classes (aead, masked, siv, isap; keyed alternately by set_key and by the key constructor) */
 #include "hx.h"
 #include "api.h"
 
@@ -8,7 +8,7 @@ static int fam, alg, klen;
 /* an empty associated data string is alternately NULL and a valid pointer with length 0 */
 static unsigned adp_toggle;
 #define ADP(p, n) ((n) ? (p) : ((adp_toggle++ & 1) ? (p) : 0))
-static const char *famname[] = {"oneshot", "incremental", "masked", "siv", "isap"};
+static const char *famname[] = {"oneshot", "incremental", "masked", "siv", "isap", "cpp-aead", "cpp-masked", "cpp-siv", "cpp-isap"};
 static char keybase[64];
 
 static void do_enc(uint8_t *c, const uint8_t *m, size_t mlen, const uint8_t *ad, size_t adlen, const uint8_t *n, const uint8_t *k)
@@ -22,6 +22,7 @@ static void do_enc(uint8_t *c, const uint8_t *m, size_t mlen, const uint8_t *ad,
     case 2: { api_masked_key mk; api_masked_key_init(alg, &mk, k); api_masked_enc[alg](c, &clen, m, mlen, ad, adlen, n, &mk); api_masked_key_free(alg, &mk); break; }
     case 3: api_siv_enc[alg](c, &clen, m, mlen, ad, adlen, n, k); break;
     case 4: { api_isap_key pk; api_isap_init[alg](&pk, k); api_isap_enc[alg](c, &clen, m, mlen, ad, adlen, n, &pk); api_isap_free[alg](&pk); break; }
+    default: cpp_encrypt(fam - 5, alg, k, n, c, m, mlen, ad, adlen); break;
     }
 }
 /* returns library result; *mlen as reported (SIZE_MAX if not reported) */
@@ -44,6 +45,7 @@ static int do_dec(uint8_t *m, size_t *mlen, const uint8_t *c, size_t clen, const
         r = api_masked_dec[alg](m, mlen, c, clen, ad, adlen, n, &mk); api_masked_key_free(alg, &mk); break; }
     case 3: r = api_siv_dec[alg](m, mlen, c, clen, ad, adlen, n, k); break;
     case 4: { api_isap_key pk; api_isap_init[alg](&pk, k); r = api_isap_dec[alg](m, mlen, c, clen, ad, adlen, n, &pk); api_isap_free[alg](&pk); break; }
+    default: { static unsigned alt; r = (alt++ & 1) ? cpp_decrypt_ctor(fam - 5, alg, k, n, m, c, clen, ad, adlen) : cpp_decrypt(fam - 5, alg, k, n, m, c, clen, ad, adlen); if (r >= 0) { *mlen = (size_t)r; r = 0; } break; }
     }
     return r;
 }
@@ -171,13 +173,13 @@ int main(int argc, char **argv)
     hx_init();
     if (argc < 5) return 2;
     fam = atoi(argv[1]); alg = atoi(argv[2]); int pat = atoi(argv[3]); int tier = atoi(argv[4]);
-    klen = fam == 4 ? ref_isap_keylen(alg) : ref_keylen(alg);
-    snprintf(keybase, sizeof keybase, "decrypt:%s:%s", famname[fam], fam == 4 ? api_isap_name[alg] : api_alg_name[alg]);
+    klen = (fam == 4 || fam == 8) ? ref_isap_keylen(alg) : ref_keylen(alg);
+    snprintf(keybase, sizeof keybase, "decrypt:%s:%s", famname[fam], (fam == 4 || fam == 8) ? api_isap_name[alg] : api_alg_name[alg]);
     static const int qs[] = {0, 1, 7, 8, 9, 15, 16, 17, 24, 31, 32, 33};
     if (!tier) {
         for (unsigned a = 0; a < 12; a++) for (unsigned l = 0; l < 12; l++) shape(qs[a], qs[l], pat, (qs[a] <= 1 && (qs[l] == 0 || qs[l] == 1 || qs[l] == 16)));
     } else {
-        int max = fam == 4 ? 40 : 48;
+        int max = (fam == 4 || fam == 8) ? 40 : fam >= 5 ? 33 : 48;
         for (int a = 0; a <= max; a++) for (int l = 0; l <= max; l++) shape(a, l, pat, (a <= 1 && (l <= 1 || l == 16 || l == 17)));
     }
     /* long lengths: round trip, one forged tag bit, one flipped ciphertext bit in the last block, truncation by one byte */
@@ -187,7 +189,7 @@ int main(int argc, char **argv)
         hx_fill(key, klen, pat, 1); hx_fill(nonce, 16, pat, 2); hx_fill(ad, 70000, pat, 3); hx_fill(m, 70000, pat, 4);
         char kb[96];
         for (unsigned i = 0; i < 12; i++) for (int which = 0; which < 2; which++) {
-            if (fam == 4 && alg != 0 && i > 5) continue;
+            if ((fam == 4 || fam == 8) && alg != 0 && i > 5) continue;
             size_t a = which ? longs[i] : 9, l = which ? 9 : longs[i], ml = 0;
             do_enc(c, m, l, ad, a, nonce, key);
             int r = do_dec(p, &ml, c, l + 16, ad, a, nonce, key); hx_stat("evaluations", 1);
